@@ -9,7 +9,7 @@
    access; pre-emption inside a line at bytecode level, the correctness of
    threading.RLock and the GIL's atomicity of single dictionary writes are assumed. *)
 From Coq Require Import List Arith Bool.
-From SC Require Import Conc.BootstrapModel Conc.BootstrapSpec Conc.BootstrapProofs.
+From SC Require Import Conc.BootstrapModel Conc.BootstrapSpec Conc.BootstrapProofs Conc.BootstrapTerm.
 Import ListNotations.
 
 (* For every class table, ANY number of threads each performing any first use
@@ -45,6 +45,20 @@ Theorem C19_no_deadlock : forall ct ts sched,
   (exists i t, nth_error (threads s) i = Some t /\ t_ph t <> Done) ->
   exists i, step true ct i s <> None.
 Proof. exact guarded_progress. Qed.
+
+(* No livelock: whatever the schedule, the threads together make at most Phi moves, a number
+   fixed by the class table and the uses (every move strictly decreases a potential). *)
+Theorem C19_no_livelock : forall ct ts sched,
+  wf_table ct -> fresh_threads ct ts ->
+  length (snd (run true ct sched (init_state ct ts))) <= Phi ct (init_state ct ts).
+Proof. exact guarded_moves_bounded. Qed.
+
+(* Every reachable state can be run to completion: all threads return. *)
+Theorem C19_can_always_finish : forall ct ts sched,
+  wf_table ct -> fresh_threads ct ts ->
+  let s := fst (run true ct sched (init_state ct ts)) in
+  exists more, forallb is_done (threads (fst (run true ct more s))) = true.
+Proof. exact guarded_can_finish. Qed.
 
 (* Trigger independence: two finished first uses of the same class, of whatever kind and
    in whatever order or interleaving with uses of parents / subclasses, saw the same
@@ -101,6 +115,8 @@ Proof. exact guarded_same_schedule. Qed.
 Print Assumptions C19_guarded_every_interleaving.
 Print Assumptions C19_body_exactly_once.
 Print Assumptions C19_no_deadlock.
+Print Assumptions C19_no_livelock.
+Print Assumptions C19_can_always_finish.
 Print Assumptions C19_trigger_independent.
 Print Assumptions C19_wrapper_removal_restores_new.
 Print Assumptions C19_every_trigger_finishes_once.
